@@ -104,6 +104,7 @@ class World(object):
         self.cm, self.sc = cm, sc
         self.clock = Clock()
         self.expiry = expiry
+        self.explicit = explicit_secret
         exp = {'session': SESSION, 'never': NEVER, 'numeric': EXPIRY}[expiry]
         kw = {'expiry': exp}
         if custom_names:
@@ -248,7 +249,11 @@ def successors(w, state):
             res, newc = w.request(w.app, raw, op, k, vjson)
             desc = ['client%d' % ci, op, k, vi]
             # what must the endpoint have been presented?
-            if clean:
+            if clean == 'foreign':
+                # a cookie issued by another middleware instance that was constructed without an explicit
+                # secret: its own random secret is not this server's secret, nothing of it may be presented
+                model = {}
+            elif clean:
                 model = json.loads(model_json)
                 if exp is not None and w.clock.now > exp:
                     model = {}
@@ -278,7 +283,7 @@ def successors(w, state):
                 if bad is None and json.loads(json.dumps(after)) != json.loads(json.dumps(model)):
                     bad = ('not-saved', 'the endpoint changed the cookie to %r but no cookie was issued' % (after,))
                 nc = clients[ci] if clean else (raw, False, '{}', None)
-                if clean and exp is not None and w.clock.now > exp:
+                if clean is True and exp is not None and w.clock.now > exp:
                     nc = (raw, True, '{}', exp)
             ns = list(clients)
             ns[ci] = nc
@@ -293,7 +298,8 @@ def successors(w, state):
         q = cookie_quote(t)
         if q == raw0:
             continue
-        yield ['client0', 'tamper', kind], ((q, False, '{}', None), clients[1], off), None
+        flag = 'foreign' if (kind == 'foreign-instance' and not w.explicit) else False
+        yield ['client0', 'tamper', kind], ((q, flag, '{}', None), clients[1], off), None
     if w.expiry == 'numeric':
         for adv in ADVANCES:
             if off + adv <= 3 * (EXPIRY + 1):
